@@ -28,8 +28,8 @@ pub fn def() -> CheckDef {
     CheckDef {
         id: "C15",
         level: "fault_enumeration",
-        runs_quick: 40_000,
-        runs_thorough: 800_000,
+        runs_quick: 60_000,
+        runs_thorough: 1_500_000,
         rule: "corruption faults on the channel between an encrypting and a decrypting party: for every sampled (mode, block size, cipher, IV, message <= 20 blocks, decrypting schedule, width policy, difference delta) ALL corruption positions j are enumerated; twin decryptions (clean vs corrupted) must differ in exactly the support the definition prescribes; prefix decryption for 'no dependence on later input'; identical cipher-input sequences for keystream modes. evaluations = scenarios; corruption positions are counted in reach_probes.corruptions. distinct = distinct (mode, block size, cipher, policy, schedule, delta kind, length); non-trivial = message of >= 2 blocks",
         required_probes: &["corruptions", "cbc", "cfb", "cfb8", "pcbc", "ige", "stream", "cfb_partial_tail", "cfb_buffered", "later_blocks_changed", "prefix_checked", "keystream_independent_of_data"],
         r#gen,
